@@ -401,7 +401,7 @@ def process_sessions(args: Tuple[List[Dict[str, Any]], int]) -> Dict[str, Any]:
                     info["errors"].append(("write_raises", f"{type(e).__name__}: {str(e)[:120]}"))
                     return None
                 st["writes"] += 1
-                ev.append({"ev": "write", "h": h, "a": a, "members": sorted([n, mid(b)] for n, b in pdx.odx_members(data).items())})
+                ev.append({"ev": "write", "h": h, "a": a, "members": sorted([n, mid(b)] for n, b in pdx.content_members(data).items())})
                 return p
 
             def load(a: str, p: str, h: str, original: Any) -> Any:
@@ -438,6 +438,9 @@ def process_sessions(args: Tuple[List[Dict[str, Any]], int]) -> Dict[str, Any]:
             else:
                 have("h1", db)
             p1 = write("h1", db, "a1")
+            if p1 and not job.get("site"):
+                # the same database object written a second time: the same archive content
+                write("h1", db, "a1b")
             if p1:
                 db2 = load("a1", p1, "h2", db)
                 if db2 is not None:
